@@ -118,22 +118,21 @@ def hashOne : Bytes := 1 :: List.replicate 31 0
 
 def zero32 : Bytes := List.replicate 32 0
 
-/-- the constants of the library that the signature hashes depend on (T1 table; `Tables/Sighash.lean`
-    proves the values regenerated from the working tree equal `table`) -/
+/-- the constants of the library that the property statements name (SIGHASH_NONE / SINGLE /
+    ANYONECANPAY, OP_CODESEPARATOR, the historical constant 1) — T1 table; `Tables/Sighash.lean` proves
+    the values regenerated from the working tree equal `table`.  SIGHASH_ALL and the SIGVERSION_*
+    selectors are mentioned by no property: the dumper records them as evidence only. -/
 structure SighashTable where
-  sighashAll : Nat
   sighashNone : Nat
   sighashSingle : Nat
   sighashAnyoneCanPay : Nat
-  sigversionBase : Nat
-  sigversionWitnessV0 : Nat
   opCodeSeparator : Nat
   hashOne : List Nat
 deriving DecidableEq, Repr
 
 def table : SighashTable :=
-  { sighashAll := SIGHASH_ALL, sighashNone := SIGHASH_NONE, sighashSingle := SIGHASH_SINGLE,
-    sighashAnyoneCanPay := SIGHASH_ANYONECANPAY, sigversionBase := 0, sigversionWitnessV0 := 1,
+  { sighashNone := SIGHASH_NONE, sighashSingle := SIGHASH_SINGLE,
+    sighashAnyoneCanPay := SIGHASH_ANYONECANPAY,
     opCodeSeparator := OP_CODESEPARATOR.toNat, hashOne := hashOne.map (·.toNat) }
 
 /-- Field ranges of the wire format, as far as the signature hashes read the transaction
